@@ -342,6 +342,23 @@ pub fn run(ctx: &Ctx) -> i32 {
         acc.cov_n("slots:len6-40", 1000);
     });
 
+    // 1c. very long sequences (hundreds of members): running totals must not be kept in a narrow integer
+    let n_long = ctx.tier.pick(400u64, 8_000u64);
+    run_workload(ctx, &mut acc, "slots-long", n_long, |_k, rng, acc| {
+        let len = rng.range(200, 700);
+        let mode = rng.below(3);
+        let seq: Vec<u16> = (0..len)
+            .map(|_| match mode {
+                0 => 256,
+                1 => (rng.range(1, 32) as u16) * 8,
+                _ => *rng.pick(&[256u16, 256, 256, 8, 128, 248]),
+            })
+            .collect();
+        check_slots(&seq, acc);
+        acc.nontrivial_h(hash_str(&format!("{:?}", seq)));
+        acc.cov("slots:len200-700");
+    });
+
     // 2. size table
     run_workload(ctx, &mut acc, "size-table", 1, |_k, _rng, acc| {
         for (sp, exp) in type_table() {
